@@ -112,8 +112,13 @@ def run(rep, tier, root=None):
             cs = find_atoms(xc, lambda a: isinstance(a, Fn) and a.name == "column_stack")
             ar = find_atoms(xc, lambda a: isinstance(a, Fn) and a.name == "arange")
             rows_ok = len(cs) == 1 and len(cs[0].args[0]) == 2 and len(ar) == 1 and same_value(ar[0].args, (Rat.const(0), nx, Rat.const(1)))
-        rep.check(rows_ok, "K8.new-row-coordinates",
-                  "%s.set_X_coords: coordinate table has shape (nx_size, 2)" % tag, "allocation %s" % [nf(c[2][0]) for c in allocs], m.where())
+        if not allocs and not (isinstance(xc, Rat) and find_atoms(xc, lambda a: isinstance(a, Fn) and a.name == "column_stack")):
+            # neither an allocation nor a stack of columns: the construction of the table is not one the rule can read
+            rep.unknown("K8.new-row-coordinates", "%s.set_X_coords: coordinate table has shape (nx_size, 2)" % tag,
+                        "the table is neither allocated by zeros / empty nor stacked from columns: %s" % nf(xc, 160), m.where())
+        else:
+            rep.check(rows_ok, "K8.new-row-coordinates",
+                      "%s.set_X_coords: coordinate table has shape (nx_size, 2)" % tag, "allocation %s" % [nf(c[2][0]) for c in allocs], m.where())
         rep.check(xp is not None and xc is not None and same_value(xp, xc * ps), "K8.positions-scaled",
                   "%s.set_X_coords: X_positions = X_coords * pixel_scale" % tag, "X_positions = %s" % nf(xp, 160), m.where())
 
